@@ -25,6 +25,13 @@ class MyList(list):
     pass
 
 
+_V = typing.TypeVar("_V")
+
+
+class IntKeyed(dict, typing.Generic[_V]):
+    """a dict subclass with ONE type parameter of its own"""
+
+
 def tt(x):
     return tuple(tt(y) for y in x) if isinstance(x, list) else x
 
@@ -44,6 +51,10 @@ def build_t(T, W):
         return dict[build_t(T[1], W), build_t(T[2], W)]
     if k == "any":
         return typing.Any
+    if k == "bare":
+        return {"mylist": MyList, "list": list, "dict": dict, "intkeyed": IntKeyed}[T[1]]
+    if k == "intkeyed":
+        return IntKeyed[build_t(T[1], W)]
     if k == "tuple":
         return tuple[tuple(build_t(x, W) for x in T[1:])]
     raise ValueError(T)
@@ -76,6 +87,10 @@ def tstr(T):
         return "type"
     if k == "inst":
         return f"K{T[1]}()" if T[1] >= 0 else "object()"
+    if k == "bare":
+        return {"mylist": "MyList", "list": "list", "dict": "dict", "intkeyed": "IntKeyed"}[T[1]]
+    if k == "intkeyed":
+        return f"IntKeyed[{tstr(T[1])}]"
     if k == "cls":
         return tstr(T[1])
     return {"list": "list", "mylist": "MyList", "dict": "dict", "type": "type", "tuple": "tuple"}[k] + "[" + ", ".join(tstr(x) for x in T[1:]) + "]"
@@ -87,6 +102,10 @@ def subT(S, T, W):
         S = ("obj",)
     if T[0] == "obj":
         return z3.BoolVal(True)
+    if S[0] in ("bare", "intkeyed"):
+        # a bare class (list, dict, a subclass) or a subclass origin with its own, different parameter list: never a
+        # subtype of a parametrised generic with another number of arguments, nor of a harness class
+        return z3.BoolVal(False)
     if T[0] == "K":
         return W.rel(S[1], T[1]) if S[0] == "K" else z3.BoolVal(False)
     if T[0] == "list":
@@ -225,7 +244,8 @@ def gen_shapes(tier, seed):
     P0 = [("cls", K2), ("cls", K0), ("cls", ("list", K2)), ("cls", ("list", K0)), ("cls", ("list", ("list", K2))),
           ("cls", ("dict", K2, K2)), ("cls", ("dict", K0, K2)), ("cls", ("mylist", K2)), ("cls", ("any",)),
           ("inst", 2), ("inst", -1), ("cls", ("obj",)), ("cls", ("tuple", K2)), ("cls", ("tuple", K2, K2)),
-          ("cls", ("tuple", K0, K2))]
+          ("cls", ("tuple", K0, K2)), ("cls", ("bare", "mylist")), ("cls", ("bare", "list")), ("cls", ("bare", "dict")),
+          ("cls", ("bare", "intkeyed")), ("cls", ("intkeyed", K2))]
     P1 = [("inst", 2), ("inst", 0)]
     one2 = [dict(n=n, methods=[[a], [b]], args=[p]) for a in A0 for b in A0 for p in P0]
     one3 = [dict(n=n, methods=[[a], [b], [c]], args=[p]) for a in A0 for b in A0 for c in A0 for p in P0]
